@@ -70,3 +70,7 @@ func ModuleHasPerm(name, perm string) bool    { return false }
 func BlockedAddr(addr string) bool            { return false }
 func DeclareRawString(store, prefix string)   {}
 func DecNonNeg(name string) sdk.Dec { return sdk.Dec{} }
+func DeclareInv(proto interface{}, pred interface{}) {}
+func CheckInvOnWrite(on bool)                         {}
+func FixField(field, value string)                    {}
+func SetBound(nameSuffix string, n int)               {}
